@@ -17,9 +17,11 @@
 // and re-entrant from inside listeners (depth <= 3).  Every trigger carries a
 // unique first argument, so every observed call is attributed to its trigger.
 //
-// configs (caseNo % 5, or --opt cfg=N): 0 CallbackList<void(int,int)>,
+// configs (caseNo % 7, or --opt cfg=N): 0 CallbackList<void(int,int)>,
 //   1 EventDispatcher<int,void(int,int)>, 2 EventQueue<int,void(int,int)>,
-//   3 HeterCallbackList<void(int,int),void(int)>, 4 HeterEventDispatcher<int,...same...>
+//   3 HeterCallbackList<void(int,int),void(int)>, 4 HeterEventDispatcher<int,...same...>,
+//   5 CallbackList and 6 EventQueue with a canContinueInvoking policy that stops after the first listener for marked triggers;
+//   a sixth of the histories of 0-2,5,6 place the generation counter just before its wrap (no nested operations there)
 // options: --opt ops=N, --opt nested=0 (no operations from inside listeners)
 #include "vcommon.h"
 #include "vledger.h"
@@ -55,12 +57,17 @@ template <typename H> static auto handleAlive(const H & h, int) -> decltype(h.ho
 template <typename H> static bool handleAlive(const H & h, long) { return ! h.expired(); }
 
 // ------------------------------------------------------------------ target adaptors
-template <typename T_, int NP>
+// a canContinueInvoking policy that looks at the trigger's arguments only: a trigger that carries STOPBIT reaches exactly the first listener
+enum { STOPBIT = 0x1000 };
+struct PolStop { static bool canContinueInvoking(int, int b) { return (b & STOPBIT) == 0; } };
+template <typename T_, int NP, int CC = 0>
 struct ListAd
 {
 	typedef T_ T;
 	typedef typename T::Handle Handle;
-	enum { NKEYS = 1, NPROTO = NP, QUEUED = 0 };
+	enum { NKEYS = 1, NPROTO = NP, QUEUED = 0, HASCC = CC, CANPLACE = NP == 1 };
+	// puts the list's generation counter `dist` additions before its wrap (guarded friend hook); not for the heterogeneous list
+	bool placeCounter(unsigned dist) { if constexpr (NP == 1) { if(eventpp_verif::Access::counter(t) >= 0x80000000u) return false; /* never move it backwards: linked nodes carry generations up to the current one */ eventpp_verif::Access::setCounter(t, 0xffffffffu - dist); return true; } else { (void)dist; return false; } }
 	T t;
 	eventpp::CounterRemover<T> cr;
 	eventpp::ConditionalRemover<T> cdr;
@@ -104,12 +111,18 @@ struct ListAd
 	void process() {}
 };
 
-template <typename T_, int NP, int Queued>
+template <typename T_, int NP, int Queued, int CC = 0>
 struct DispAd
 {
 	typedef T_ T;
 	typedef typename T::Handle Handle;
-	enum { NKEYS = 2, NPROTO = NP, QUEUED = Queued };
+	enum { NKEYS = 2, NPROTO = NP, QUEUED = Queued, HASCC = CC, CANPLACE = NP == 1 };
+	bool placeCounter(unsigned dist) {
+		bool any = false;
+		if constexpr (NP == 1) { for(int k = 0; k < 2; ++k) { auto * l = eventpp_verif::Access::findList(t, keyVal(k)); if(l && eventpp_verif::Access::counter(*l) < 0x80000000u) { eventpp_verif::Access::setCounter(*l, 0xffffffffu - dist); any = true; } } }
+		else (void)dist;
+		return any;
+	}
 	T t;
 	eventpp::CounterRemover<T> cr;
 	eventpp::ConditionalRemover<T> cdr;
@@ -159,8 +172,11 @@ typedef DispAd<eventpp::EventDispatcher<int, void(int, int)>, 1, 0> Ad1;
 typedef DispAd<eventpp::EventQueue<int, void(int, int)>, 1, 1> Ad2;
 typedef ListAd<eventpp::HeterCallbackList<HProtos>, 2> Ad3;
 typedef DispAd<eventpp::HeterEventDispatcher<int, HProtos>, 2, 0> Ad4;
+typedef ListAd<eventpp::CallbackList<void(int, int), PolStop>, 1, 1> Ad5;
+typedef DispAd<eventpp::EventQueue<int, void(int, int), PolStop>, 1, 1, 1> Ad6;
 static const char * kCfgName[] = { "CallbackList<void(int,int)>", "EventDispatcher<int,void(int,int)>", "EventQueue<int,void(int,int)>",
-	"HeterCallbackList<void(int,int),void(int)>", "HeterEventDispatcher<int,void(int,int),void(int)>" };
+	"HeterCallbackList<void(int,int),void(int)>", "HeterEventDispatcher<int,void(int,int),void(int)>",
+	"CallbackList<void(int,int)> canContinueInvoking policy on the arguments", "EventQueue<int,void(int,int)> canContinueInvoking policy on the arguments" };
 
 // ------------------------------------------------------------------ model
 enum NKind { NK_PLAIN, NK_COUNTER, NK_COND_ARGS, NK_COND_NOARGS };
@@ -190,7 +206,7 @@ struct World : CallbackSink, CondSink
 	std::vector<int> order[NL];
 	bool listHasDetached[NL];
 
-	struct Frame { int li, a, b; std::vector<int> snap; size_t pos; int curUid; };
+	struct Frame { int li, a, b; std::vector<int> snap; size_t pos; int curUid; bool cut; /* canContinueInvoking is false for this trigger and one listener has run */ };
 	std::vector<Frame> frames;
 	struct QEv { int key, a, b; };
 	std::deque<QEv> pending;
@@ -199,10 +215,10 @@ struct World : CallbackSink, CondSink
 	struct PendingCond { bool active; int uid; bool outcome, hasArgs; int a, b; } pc;
 
 	int serial, nextCb, budget;
-	bool allowNested, dead, nontrivial;
+	bool allowNested, dead, nontrivial, nearWrap;
 	Fnv trace;
 
-	World(Rng & r) : rng(r), serial(0), nextCb(0), budget(0), allowNested(true), dead(false), nontrivial(false) {
+	World(Rng & r) : rng(r), serial(0), nextCb(0), budget(0), allowNested(true), dead(false), nontrivial(false), nearWrap(false) {
 		frames.reserve(16);
 		pc.active = false;
 		for(int i = 0; i < NL; ++i) listHasDetached[i] = false;
@@ -324,7 +340,7 @@ struct World : CallbackSink, CondSink
 
 	// ---------- frames
 	void pushFrame(int li, int a, int b) {
-		Frame f; f.li = li; f.a = a; f.b = b; f.snap = order[li]; f.pos = 0; f.curUid = -1;
+		Frame f; f.li = li; f.a = a; f.b = b; f.snap = order[li]; f.pos = 0; f.curUid = -1; f.cut = false;
 		frames.push_back(f);
 		countMax("max_depth", frames.size());
 		if(listHasDetached[li]) { nontrivial = true; count("triggers.after_a_detachment_in_that_list"); }
@@ -343,7 +359,7 @@ struct World : CallbackSink, CondSink
 		if(! dead) {
 			Frame & f = frames.back();
 			if(pc.active && ! nextEventStarted) fail("conditional:condition-evaluated-but-listener-not-invoked", "condition of " + nname(pc.uid) + " was evaluated and the trigger ended without invoking the listener");
-			for(size_t i = f.pos; i < f.snap.size() && ! dead; ++i) {
+			for(size_t i = f.pos; i < f.snap.size() && ! dead && ! f.cut; ++i) {
 				if(nodes[f.snap[i]].live) {
 					const MNode & n = nodes[f.snap[i]];
 					fail(missedKey(f.snap[i]), "trigger a=" + num(f.a) + " of " + lname(f.li) + " ended without invoking " + nname(f.snap[i])
@@ -422,6 +438,7 @@ struct World : CallbackSink, CondSink
 		{
 			Frame & f = frames[fi];
 			const MNode & n = nodes[uid];
+			if(f.cut) { fail("trigger:listener-invoked-after-canContinueInvoking-returned-false", nname(uid) + " invoked by trigger (" + num(f.a) + "," + num(f.b) + ") of " + lname(f.li) + " for which the policy stops the invocation after the first listener"); return; }
 			size_t p = f.pos;
 			while(p < f.snap.size() && ! nodes[f.snap[p]].live) ++p;
 			if(! (p < f.snap.size() && f.snap[p] == uid)) {
@@ -442,6 +459,7 @@ struct World : CallbackSink, CondSink
 			}
 			f.pos = p + 1;
 			f.curUid = uid;
+			if(Ad::HASCC && (f.b & STOPBIT)) { f.cut = true; count("canContinue.trigger_cut_after_first_listener"); if(p + 1 < f.snap.size()) count("canContinue.listeners_suppressed", f.snap.size() - p - 1); }
 			if(args.fp[0] != f.a || (proto == 0 && args.fp[1] != f.b)) { fail("trigger:arguments", nname(uid) + " received " + args.str() + ", trigger carries (" + num(f.a) + "," + num(f.b) + ")"); return; }
 		}
 		bool justDetached = false;
@@ -474,7 +492,7 @@ struct World : CallbackSink, CondSink
 
 	// ---------- triggers
 	void doTrigger(int li, int reentrantOf /* uid or -1 */, bool lastCall) {
-		const int a = ++serial, b = (int)rng.below(50);
+		const int a = ++serial, b = (int)rng.below(50) | ((Ad::HASCC && rng.chance(1, 4)) ? (int)STOPBIT : 0);
 		log("trigger " + lname(li) + " (" + num(a) + (protoOf(li) == 0 ? "," + num(b) : std::string()) + ")");
 		count(frames.empty() ? "triggers.direct_top_level" : "triggers.direct_nested");
 		if(reentrantOf >= 0 && nodes[reentrantOf].kind != NK_PLAIN) {
@@ -487,7 +505,7 @@ struct World : CallbackSink, CondSink
 		log("trigger done");
 	}
 	void doEnqueue(int key) {
-		QEv e; e.key = key; e.a = ++serial; e.b = (int)rng.below(50);
+		QEv e; e.key = key; e.a = ++serial; e.b = (int)rng.below(50) | ((Ad::HASCC && rng.chance(1, 4)) ? (int)STOPBIT : 0);
 		pending.push_back(e);
 		ad.enqueue(key, e.a, e.b);
 		log("enqueue k" + num(keyVal(key)) + " (" + num(e.a) + "," + num(e.b) + ")");
@@ -541,6 +559,8 @@ struct World : CallbackSink, CondSink
 	void step() {
 		const int li = (int)rng.below(NL);
 		const uint32_t c = rng.below(100);
+		// near-wrap histories (no operations from inside listeners there, so no invocation is in progress when the counter wraps)
+		if(nearWrap && rng.chance(1, 8)) { const unsigned dist = rng.below(10); if(ad.placeCounter(dist)) { log("generation counter(s) placed " + num((long long)dist) + " addition(s) before the wrap"); count("wrap.counter_placed"); } return; }
 		if(c < 24) doAddWrapped(li);
 		else if(c < 36) { if(nodes.size() < 60) doAdd(li, NK_PLAIN); }
 		else if(c < 44) doRemovePlain(li);
@@ -596,6 +616,7 @@ static void runCfg(Rng & rng, uint64_t caseNo, int cfgIndex)
 	{
 		World<Ad> w(rng);
 		w.allowNested = ctx().optInt("nested", 1) != 0;
+		if(Ad::CANPLACE && rng.chance(1, 6)) { w.nearWrap = true; w.allowNested = false; count("near_wrap_histories"); }
 		oplog(std::string("config ") + num(cfgIndex) + ": " + kCfgName[cfgIndex] + " ops=" + num(nops));
 		w.run(nops);
 		h = w.trace.h;
@@ -609,7 +630,7 @@ static void runCfg(Rng & rng, uint64_t caseNo, int cfgIndex)
 	if(wantSample() && nontrivial && ! caseHasViolation()) addSample("{\"case\":" + unum(caseNo) + ",\"history\":" + oplogJson(ctx().oplog, 80) + "}");
 }
 
-enum { NCFG = 5 };
+enum { NCFG = 7 };
 
 static void runCase(uint64_t caseNo, Rng & rng)
 {
@@ -621,6 +642,8 @@ static void runCase(uint64_t caseNo, Rng & rng)
 	case 2: runCfg<Ad2>(rng, caseNo, 2); break;
 	case 3: runCfg<Ad3>(rng, caseNo, 3); break;
 	case 4: runCfg<Ad4>(rng, caseNo, 4); break;
+	case 5: runCfg<Ad5>(rng, caseNo, 5); break;
+	case 6: runCfg<Ad6>(rng, caseNo, 6); break;
 	default: --ctx().casesRun; break;
 	}
 }
